@@ -8,6 +8,7 @@ package objecttree
 // C09: common snapshot of two snapshot paths (full functional specification)
 //
 //@ func commonSnapshotForTwoPaths
+//@   modifies nothing
 //@   ensures [member_ours]   result1 == nil ==> (exists a int :: 0 <= a && a < len(ourPath) && ourPath[a] == result)
 //@   ensures [member_theirs] result1 == nil ==> (exists b int :: 0 <= b && b < len(theirPath) && theirPath[b] == result)
 //@   ensures [err_iff_disjoint] result1 != nil ==> (forall a int, b int :: 0 <= a && a < len(ourPath) && 0 <= b && b < len(theirPath) ==> ourPath[a] != theirPath[b])
@@ -434,3 +435,53 @@ package objecttree
 //@   ensures [failed_delete_keeps_tree_live] result != nil ==> ot.isDeleted == old(ot.isDeleted)
 //@   ensures [deleted_after_success]         result == nil ==> ot.isDeleted
 //@   ensures [live_tree_reaches_storage]     !old(ot.isDeleted) ==> treeDeleteCalls == old(treeDeleteCalls) + 1
+
+// ---------------------------------------------------------------------------------------------
+// C09: where a full-sync answer starts. The snapshot path runs from the current snapshot back to the
+// first change of the tree and is never empty on success; an empty request (no snapshot path) is
+// answered from the last entry of our path - the very first change - so the whole tree is streamed;
+// otherwise from the common snapshot of the two paths. The loader marks from the requester's heads
+// and streams towards our current heads; the iterator carries our root and our path.
+//@ ghost spPath Slice stable
+//@ ghost ldSnapshot Str stable
+//@ ghost ldHeads Slice stable
+//@ ghost ldBreakpoints Slice stable
+//@ ghost ldIter Ptr stable
+//@ func iface objecttree.Storage.Get
+//@   modifies nothing
+//@ func (*objectTree).snapshotPathIsActual
+//@   modifies nothing
+//@   requires ot != nil && ot.tree != nil
+//@   ensures result <==> (len(ot.snapshotPath) != 0 && ot.snapshotPath[0] == ot.tree.RootId())
+//@ func (*objectTree).SnapshotPath
+//@   requires ot != nil && ot.tree != nil && ot.storage != nil
+//@   assumes ot.tree.RootId() != ""
+//@   modifies object ot
+//@   ensures [never_empty]                result1 == nil ==> len(result0) > 0
+//@   ensures [starts_at_current_snapshot] result1 == nil ==> result0[0] == ot.tree.RootId()
+//@   ensures [deleted_tree_has_no_path]   ot.isDeleted ==> result1 != nil
+//@   ensures [only_caches_the_path]       ot.tree == old(ot.tree) && ot.storage == old(ot.storage) && ot.rawRoot == old(ot.rawRoot) && ot.changeBuilder == old(ot.changeBuilder) && ot.isDeleted == old(ot.isDeleted)
+//@   sets spPath = result0
+//@   loop 0:
+//@     invariant len(path) > 0 || currentSnapshotId == ot.tree.RootId()
+//@     invariant len(path) > 0 ==> path[0] == ot.tree.RootId()
+//@     invariant path == nil || rootof(path) > 0
+//@     invariant ot.tree != nil && ot.storage != nil && ot.tree == old(ot.tree)
+//@ func newLoadIterator
+//@   inline
+//@ func (*loadIterator).load
+//@   modifies object l
+//@   posits [keeps_what_it_was_built_with] l.root == old(l.root) && l.snapshotPath == old(l.snapshotPath) && l.storage == old(l.storage) && l.builder == old(l.builder)
+//@   sets ldSnapshot = commonSnapshot
+//@   sets ldHeads = heads
+//@   sets ldBreakpoints = breakpoints
+//@   sets ldIter = l
+//@ func (*objectTree).ChangesAfterCommonSnapshotLoader
+//@   requires ot != nil && ot.tree != nil && ot.storage != nil
+//@   assumes ot.tree.RootId() != ""
+//@   ensures [deleted_tree_serves_nothing]  old(ot.isDeleted) ==> result1 != nil
+//@   ensures [whole_tree_for_empty_request] result1 == nil && len(theirPath) == 0 ==> ldSnapshot == cast(spPath, "[]string")[len(spPath) - 1]
+//@   ensures [common_snapshot_otherwise]    result1 == nil && len(theirPath) != 0 ==> (exists a int :: 0 <= a && a < len(spPath) && cast(spPath, "[]string")[a] == ldSnapshot) && (exists b int :: 0 <= b && b < len(theirPath) && theirPath[b] == ldSnapshot)
+//@   ensures [marks_from_their_heads]       result1 == nil ==> ldBreakpoints == theirHeads
+//@   ensures [streams_to_our_heads]         result1 == nil ==> ldHeads == ot.tree.headIds
+//@   ensures [iterator_is_the_loaded_one]   result1 == nil ==> ifaceptr(result0) == ldIter && cast(ldIter, "*loadIterator").root == ot.rawRoot && cast(ldIter, "*loadIterator").snapshotPath == spPath && cast(ldIter, "*loadIterator").storage == ot.storage
